@@ -23,6 +23,9 @@ SmallLit == {[syms |-> <<256>>, shape |-> "single"],
              [syms |-> <<256, 65, 66, 67, 257, 258, 264, 285>>, shape |-> "chain"]}
 SmallDist == {[syms |-> <<>>, shape |-> "none"], [syms |-> <<0>>, shape |-> "single"],
               [syms |-> <<0, 1, 2, 29>>, shape |-> "balanced"]}
+StaleLit == {[syms |-> <<65, 66, 256, 257>>, shape |-> "balanced"],
+             [syms |-> <<256, 65, 66, 67, 257, 258, 264, 285>>, shape |-> "chain"]}
+StaleDist == {[syms |-> <<>>, shape |-> "none"], [syms |-> <<0>>, shape |-> "single"], [syms |-> <<0, 3>>, shape |-> "balanced"]}
 SmallLen == {<<257, 0>>, <<285, 0>>}
 SmallDistC == {<<0, 0>>, <<2, 0>>}
 
